@@ -1423,8 +1423,41 @@ def _gen_its(tier, rng):
     return cases
 
 
+def _gen_corpus(tier, rng):
+    """Reaction centres inside their ITS graphs from the repository's test corpus (Data/Testcase/graph.pkl.gz, 20-40 atoms): the
+    strictly-smaller-pattern path of get_mappings on the graphs SynKit really works with; label selections kept strong."""
+    import os
+    from synkit.IO.data_io import load_from_pickle
+    import synkit
+    path = os.path.join(os.path.dirname(os.path.dirname(synkit.__file__)), "Data", "Testcase", "graph.pkl.gz")
+    if not os.path.exists(path):
+        return []
+    data = load_from_pickle(path)
+    cases = []
+    sels = [(["element", "charge"], ["order"]), (["typesGH"], ["order"]), (["element", "neighbors", "charge"], ["standard_order"]),
+            (["element", "aromatic", "charge"], ["order"])]
+    for d in data[:(10 if tier == "quick" else 40)]:
+        its, rc = G.from_nx(d["ITS"]), G.from_nx(d["RC"])
+        if len(its["nodes"]) > 45:
+            continue
+        gs = [its, _present(rc, rng, extra=60)]
+        es = []
+        for na, ea in rng.sample(sels, 2):
+            es.append({"na": list(na), "ea": list(ea), "wl": True, "mm": rng.choice([None, 1, 3])})
+        es.append(dict(es[0], wl=False))
+        qs = []
+        for e in range(len(es)):
+            qs += [["maps", e, 0, 1], ["iso", e, 0, 1], ["iso", e, 1, 0], ["pre", e, 0, 1], ["maps", e, 1, 0], ["iso", e, 1, 1]]
+        for v in ("sm", "gm", "is"):
+            for filt in (False, True):
+                qs.append(["sub", v, 1, 0, filt, rng.choice(["induced", "mono"]), NAMES_DEF, "order"])
+        rng.shuffle(qs)
+        cases.append(dict(kind="corpus", graphs=gs, engines=es, queries=qs))
+    return cases
+
+
 def gen_cases(tier, rng):
-    cases = _gen_mccs(tier, rng) + _gen_synkit(tier, rng) + _gen_its(tier, rng)
+    cases = _gen_mccs(tier, rng) + _gen_synkit(tier, rng) + _gen_its(tier, rng) + _gen_corpus(tier, rng)
     # ---- degenerate values: all ordered pairs of the zoo (second graph renumbered), every entry point
     zoo = _zoo()
     for a in zoo:
